@@ -48,12 +48,38 @@ META.update({
     ),
 })
 
+E1 = "explicit-state exploration of the real LevMarProblem: every history of set_params over an alphabet of parameter vectors up to depth d (DFS, live problem cloned at every node), queries as self-loops, invariants evaluated in every reached state"
+META.update({
+    "C01": dict(technique=E1 + "; invariant = least-squares optimality certificate, minimum-norm, truncated-pseudo-inverse reference, linearity",
+        text="In every reached state of every scenario (7 families + crafted diagonal matrices with singular values either side of the threshold, hand/built, f32/f64, seq/par, single/mrhs, 6 weight kinds, default/+-user thresholds) the reported coefficients must satisfy the normal equations on the retained subspace, have no component along truncated directions, agree with an independent Jacobi-SVD reference and be linear in the observations; all values finite in the rank-deficient corner.",
+        note="States whose singular values lie within a factor 2 (plus the rounding floor of the scalar type) of the threshold are classified Ambiguous and only counted. alpha, Y, w are finite alphabets.", ref="DESIGN.md §5 C01"),
+    "C02": dict(technique=E1 + "; invariant = residuals == column-major W(Y - Phi C) for the reported C, weighted_data == W*Y, params() == last applied alpha",
+        text="Identity between reported quantities in every reached state, including rank-deficient states (where a projector-based shortcut differs), weights with w^2 != w, negative and zero weights, multiple right-hand sides.",
+        note="best_fit and optimizer-driven histories are decided by the fit engines (C04/C05 checks) once registered.", ref="DESIGN.md §5 C02"),
+    "C03": dict(technique=E1 + "; invariant = reference Kaufman Jacobian, range orthogonality, finite-difference gradient; plus fault injection at every derivative call (all-or-nothing)",
+        text="In every full-rank reached state jacobian() is compared column by column and block by block with -(I-P)W D_k C built from an independent reference, every block must be orthogonal to range(W Phi), and 2 J^T r must match central differences of fresh problems; the faults engine shows that a failing derivative at any index yields None.",
+        note="Full-rank = all singular values surely above the threshold; K eps kappa <= 1e-2.", ref="DESIGN.md §5 C03"),
+    "C06": dict(technique=E1 + " on lock-step twins: weighted problem || row-scaled unweighted problem (and unit-weights || no weights, zero weight || row deleted, negative weight || |w|)",
+        text="Twins are stepped through the same histories; coefficients, residuals and Jacobian must agree in every state (bitwise for unit weights; tolerance otherwise, bitwise in practice and counted).",
+        note="Whole fits and statistics of twins are compared by the fit engine once registered.", ref="DESIGN.md §5 C06"),
+    "C07": dict(technique=E1 + " on lock-step 1+S problems: the mrhs problem and the S single-rhs problems of its columns, over all ordered column selections from a 6-column pool (S<=3, plus S=4,5)",
+        text="Column s of the coefficient matrix and block s of residuals and of every Jacobian column must equal the single-rhs problem's in every reached state; includes duplicated, dependent and zero columns, S > M, weights, both flavours.",
+        note="Fitted-alpha invariance under column permutation is decided by the fit engine once registered.", ref="DESIGN.md §5 C07"),
+    "C10": dict(technique=E1 + "; invariant = the map alpha -> observable state is single-valued over all histories and equals a freshly built problem bitwise; queries are self-loops; failed updates leave nothing exposed",
+        text="Every state is approached through every history up to depth 3 (quick) / 4 (thorough) over alphabets that include rank-deficient, extreme and model-rejected parameter vectors.",
+        note="The uninitialised-memory clause is decided by the heap engine once registered.", ref="DESIGN.md §5 C10"),
+    "C11": dict(technique=E1 + " on lock-step twins: parallel problem || sequential problem (real rayon), bitwise comparison in every state",
+        text="Every scenario of C01-C03 is stepped in both flavours through every history; all observable quantities must be bitwise equal. Catches drift between the two copies of set_params/jacobian.",
+        note="Schedule exhaustiveness (all work-stealing schedules) is the subject of the controlled-scheduler engine; this check runs real rayon with 4 worker threads.", ref="DESIGN.md §5 C11"),
+})
+
 NOT_YET = "check not yet registered in this revision (engine under construction, see DESIGN.md §10)"
 NA = {
     "C19": "frequency claim over a continuous noise distribution ('up to sampling error'): deciding it needs Monte-Carlo sampling or an analytic proof, neither of which is an exhaustive enumeration of a bounded behaviour space (DESIGN.md §5 C19); its deterministic ingredients are decided under C12-C14",
 }
 
 ENGINES = [
+    dict(name="probstate", path="harness/src/bin/probstate.rs", serves_properties=["C01", "C02", "C03", "C06", "C07", "C10", "C11"], kind_free_text="explicit-state DFS over set_params histories of the real LevMarProblem with per-state invariants and lock-step twins"),
     dict(name="stats", path="harness/src/bin/stats.rs", serves_properties=["C12", "C13", "C14"], kind_free_text="product-grid exploration of real fit_with_statistics runs vs reference linear algebra and scipy t-table"),
     dict(name="nonfinite", path="harness/src/bin/nonfinite.rs", serves_properties=["C08"], kind_free_text="deviation-bounded enumeration of IEEE special values at every input position, watchdogged"),
     dict(name="faults", path="harness/src/bin/faults.rs", serves_properties=["C09", "C03"], kind_free_text="fault injection at every model-call index over histories, fits and statistics"),
